@@ -27,6 +27,7 @@ def witnesses():
     w["KF-C19-MAX-short-rows"] = ("C19", "maxtoppm", bytes([0, 0, 64, 0, 0]) + bytes(10), dict(arte=0, newsroom=False, cols=256, rows=None, skip=None, ignore_header_errors=False))
     w["KF-C19-PIX-non-square-size"] = ("C19", "pixtopgm", bytes(3), {})
     w["KF-C19-CM3-line-count"] = ("C19", "cm3toppm", bytes([1]) + bytes(range(16)) + bytes(12) + bytes([1, 0x80]) + bytes(160), {})
+    w["KF-C19-VEF-image-data-of-the-wrong-length"] = ("C19", "veftopng", bytes([0, 0]) + bytes(range(16)) + bytes(10), {})
     return w
 
 
@@ -40,7 +41,12 @@ def check_all(verbose=True):
         ok_return = real["outcome"] == "return" and real.get("result") is not False
         fails = False
         why = ""
-        if prop in ("C18", "C19"):
+        if tool == "veftopng":
+            png = real.get("png") or {}
+            fails = (real["outcome"] == "return" and ("error" in png or png.get("samples") != png.get("width", 0) * png.get("height", 0))) or \
+                    (real["outcome"] == "raise" and real.get("exception") not in ("IndexError", "TypeError", "ValueError"))
+            why = "png=%s outcome=%s %s" % (png, real["outcome"], real.get("exception", ""))
+        elif prop in ("C18", "C19"):
             ph = ref.parse_netpbm(o)
             if ok_return and ph:
                 ch = 3 if ph[0] == "P6" else 1
